@@ -316,6 +316,9 @@ def run_case(case_name, fn, cfg, opts):
                 seen_fns.add('%s:%s' % (os.path.basename(fnm),
                                         frame.f_code.co_qualname))
 
+    from . import facade_myokit
+    facade_myokit.set_backend(B)
+
     def body():
         B.begin()
         fn(B, cfg)
@@ -619,7 +622,13 @@ def concrete_run(fn, cfg, env, opts):
     facades.uninstall()
     B = ConcreteBackend(dict(env))
     B.begin()
-    fn(B, cfg)
+    from . import facade_myokit
+    facade_myokit.set_backend(B)
+    facades.install(opts.get('facade', {}), concrete=True)
+    try:
+        fn(B, cfg)
+    finally:
+        facades.uninstall()
     return B
 
 
